@@ -122,7 +122,7 @@ class Run(object):
             b = self.ffi.buffer(v['obj']) if v.get('isarray', True) else self.ffi.buffer(v['obj'], n)
         if len(b) != size:
             raise Violation('C19.1', 'ffi.buffer(from_buffer cdata, %d) has len %d' % (size, len(b)))
-        self.views.append(dict(kind='buf', obj=b, s=v['s'], off=v['off'], n=size, ro=False, keeps=True))
+        self.views.append(dict(kind='buf', obj=b, s=v['s'], off=v['off'], n=size, ro=False, keeps=True, over_fb=True))
         self.out.probe('buffer_over_from_buffer_cdata')
 
     def op_buf_read(self, k, how, a, b):
@@ -290,6 +290,34 @@ class Run(object):
             if got != want:
                 raise Violation('C19.2', 'from_buffer cdata [%d] reads %r, the object holds %r' % (i, got, want))
 
+    def op_resize(self, k):
+        """a bytearray must stay export-locked (its memory must not move) while a from_buffer cdata on it
+        is alive -- and an ffi.buffer view made over such a cdata keeps that cdata alive"""
+        si = self.pick_store(k, lambda s: s['kind'] == 'ba')
+        if si is None:
+            return
+        s = self.stores[si]
+        direct = [v for v in self.views if v['s'] == si and v['kind'] == 'fb']
+        through = [v for v in self.views if v['s'] == si and v.get('over_fb')]
+        try:
+            s['obj'].append(0)
+            s['obj'].pop()
+            ok = True
+        except BufferError:
+            ok = False
+        if ok and (direct or through):
+            raise Violation('C19.1' if not direct else 'C19.2',
+                            'a bytearray could be resized although %d from_buffer cdata and %d ffi.buffer views over '
+                            'from_buffer cdata on it are alive: the views are no longer live views of its bytes'
+                            % (len(direct), len(through)))
+        if through and not direct:
+            self.out.probe('view_keeps_dropped_from_buffer_cdata_alive')
+
+    def stores_index_of(self, si):
+        """selector k that makes pick_store(k, ba-predicate) return store si"""
+        c = [i for i, s in enumerate(self.stores) if s['kind'] == 'ba' and s.get('obj') is not None]
+        return c.index(si) if si in c else 0
+
     def op_pywrite(self, k, r):
         si = self.pick_store(k, lambda s: s['kind'] == 'ba')
         if si is None:
@@ -418,6 +446,21 @@ class Run(object):
             self.op_fb_rw(op[1], op[2], op[3])
         elif n == 'pywrite':
             self.op_pywrite(op[1], op[2])
+        elif n == 'resize':
+            self.op_resize(op[1])
+        elif n == 'fb_orphan':
+            # view over a from_buffer cdata, then drop that cdata + collect: the view must keep it alive
+            before = len(self.views)
+            self.op_mkbuf_fb(op[1], op[2])
+            if len(self.views) > before:
+                bv = self.views[-1]
+                for i, v in enumerate(self.views):
+                    if v['kind'] == 'fb' and v['s'] == bv['s']:
+                        del self.views[i]
+                        break
+                gc.collect()
+                self.out.fault('from_buffer_cdata_dropped_behind_live_view')
+                self.op_resize(self.stores_index_of(bv['s']))
         elif n == 'memmove':
             self.op_memmove(op[1], op[2], op[3])
         elif n == 'memmove_ro':
@@ -489,14 +532,14 @@ class C19(core.Check):
                ['store', 'cdata', rng.randint(1, 48), rng.below(1000)]]
         for _ in range(rng.randint(4, 50)):
             n = rng.weighted([('store', 4), ('mkbuf', 10), ('mkbuf_fb', 3), ('bread', 16), ('bwrite', 16), ('frombuf', 8),
-                              ('badfrombuf', 2), ('fbrw', 10), ('pywrite', 4), ('memmove', 16), ('memmove_ro', 1),
+                              ('badfrombuf', 2), ('fbrw', 10), ('pywrite', 4), ('resize', 4), ('fb_orphan', 3), ('memmove', 16), ('memmove_ro', 1),
                               ('orphan', 3), ('dropview', 3), ('collect', 1)])
             k = rng.below(1000)
             r = rng.below(10 ** 9)
             if n == 'store':
                 ops.append(['store', rng.choice(['cdata', 'ba', 'arr']), rng.randint(0, 48), r])
-            elif n == 'mkbuf_fb':
-                ops.append(['mkbuf_fb', k, r])
+            elif n in ('mkbuf_fb', 'fb_orphan'):
+                ops.append([n, k, r])
             elif n == 'mkbuf':
                 ops.append(['mkbuf', k, rng.weighted([('full', 5), ('partial', 4), ('zero', 1)]), r])
             elif n == 'bread':
@@ -524,7 +567,7 @@ class C19(core.Check):
                 ops.append(['memmove', k, rng.below(1000), r])
             elif n in ('pywrite',):
                 ops.append([n, k, r])
-            elif n in ('orphan', 'dropview'):
+            elif n in ('orphan', 'dropview', 'resize'):
                 ops.append([n, k])
             elif n == 'memmove_ro':
                 ops.append([n, r])
